@@ -29,7 +29,7 @@ def check_C15(tier):
     thorough = tier == "thorough"
     rng = random.Random(seed() * 43 + 15)
     build("probe")
-    r, cases = expand_cases(5 if thorough else 3)
+    r, cases = expand_cases(4 if thorough else 3)
     if r.error or not cases:
         chk.undecided.append("Expand.tla: %s" % (r.error or "no cases")[-300:]); return chk.finish()
     chk.add_tlc(r)
